@@ -254,8 +254,14 @@ func solveAll(obls []*Obligation, opts SolveOpts) {
 	// An obligation on which every solver ran out of time (no model, no
 	// `unknown`) is tried once more with nothing else running and a longer
 	// limit: a machine under load must not turn a proof into an alarm.
+	var timedOut []*Obligation
 	for _, o := range obls {
 		if o.Status == "failed" && o.Expect == "unsat" && o.allTimeouts {
+			timedOut = append(timedOut, o)
+		}
+	}
+	if len(timedOut) <= 3 { // more than a few is not a blip of the machine
+		for _, o := range timedOut {
 			retryCalm(o, opts)
 		}
 	}
@@ -310,6 +316,10 @@ func solveOne(o *Obligation, opts SolveOpts) {
 	}
 	if want == "sat" && ans == "unsat" {
 		o.Status = "failed"
+		return
+	}
+	if want == "unsat" && ans != "sat" && ans != "unsat" && caseSplit(o, opts, 2*opts.QuickT, 3) {
+		// decided early as a case analysis over the merge conditions
 		return
 	}
 	// race the remaining solvers with the long timeout
@@ -368,6 +378,17 @@ func solveOne(o *Obligation, opts SolveOpts) {
 		return
 	}
 	o.Status = "failed"
+	if want == "unsat" {
+		sat := false
+		for _, a := range answers {
+			if a == "sat" {
+				sat = true
+			}
+		}
+		if !sat && caseSplit(o, opts, opts.SlowT, 6) {
+			return
+		}
+	}
 	o.allTimeouts = true
 	for _, a := range answers {
 		if a != "timeout" {
